@@ -102,6 +102,20 @@ def sequence_fields(defn):
     return out
 
 
+def scaled_fields(defn):
+    out = set()
+
+    def walk(d):
+        for k, v in d.items():
+            if G.is_group_def(v):
+                walk(v[1])
+            elif isinstance(v, list):
+                out.add(k)
+
+    walk(defn)
+    return out
+
+
 def value_kind(v, size=None):
     if size is not None and isinstance(v, (bytes, bytearray, str, list)):
         n = len(v.encode("utf-8", "backslashreplace")) if isinstance(v, str) else len(v)
@@ -356,17 +370,22 @@ def check(case) -> core.Out:
         return value_kind(val, sizes.get(attr))
 
     key = f"{PROP}|{fk0}|{vk(a0, v0)}|"
+    desc = f"{C.MODES[mode]} {defname} bf={bf} " + ", ".join(f"{a}={core.srepr(v, 50)}" for a, v, *_ in infos)
     # differential baseline: the same keywords without the hostile values must
     # regenerate the base payload (otherwise the case belongs to C03)
     try:
         b0 = pyubx2.UBXMessage(clsid[0:1], clsid[1:2], mode, parsebitfield=bf, **kw_valid)
         if (b0.payload or b"") != payload:
+            if not bf and c03.count_in_flag(t.defn) and len(b0.payload or b"") != len(payload):
+                out.viol.append((f"{PROP}|count-in-bitfield|bytes-exact|wrong-length",
+                                 f"{desc.split(' bf=')[0]} bf=0: keywords for {len(payload)} bytes (the supplied bitfield "
+                                 f"sizes the group) build a payload of {len(b0.payload or b'')} bytes"))
+                return out
             raise ValueError
     except Exception:  # noqa
         out.classes = ["skipped:baseline-does-not-round-trip(C03)"]
         out.nontrivial = False
         return out
-    desc = f"{C.MODES[mode]} {defname} bf={bf} " + ", ".join(f"{a}={core.srepr(v, 50)}" for a, v, *_ in infos)
     try:
         built = pyubx2.UBXMessage(clsid[0:1], clsid[1:2], mode, parsebitfield=bf, **kw)
         got = built.payload or b""
@@ -461,6 +480,21 @@ def run_shard(spec, ctx, acc):
                         max_examples=n, known=known, rounds=4)
         # definitions with byte-string / character / array attributes get an extra
         # search whose hostile attribute is always one of those
+        scnames = scaled_fields(t.defn)
+        if scnames:
+            def with_scaled(nodes_bf, base=base, scnames=scnames):
+                nodes, bf = nodes_bf
+                names = [nm for nm, _ in G.expect(nodes, bf) if C.base_name(nm) in scnames]
+                if not names:
+                    return st.just(dict(base, bf=bf, nodes=nodes, hostile=[]))
+                vals = st.one_of(st.integers(-300, 300), st.integers(-100000, 100000),
+                                 st.floats(-400, 400, allow_nan=False), st.sampled_from([4, 5, 100, 255, -7, 90, 180, 179]))
+                return st.tuples(st.sampled_from(names), vals).map(
+                    lambda nv: dict(base, bf=bf, nodes=nodes, hostile=[[nv[0], nv[1]]]))
+
+            core.hyp_search(acc, st.tuples(inst, st.sampled_from([1, 0])).flatmap(with_scaled), check,
+                            seed=core.derive(ctx["seed"], PROP, "scaled", t.label),
+                            max_examples=max(8, n // 3), known=known, rounds=3)
         seqnames = sequence_fields(t.defn)
         if seqnames:
             def with_seq(nodes_bf, base=base, seqnames=seqnames):
